@@ -1,4 +1,6 @@
 //! Deterministic simulation harness for rust-works/succinctly.
 pub mod core;
+pub mod c03;
 pub mod c12;
+pub mod c17;
 pub mod driver;
